@@ -317,7 +317,7 @@ class Cluster:
         self.raw = dict(other.raw)
         self.info = {}
         for n in names:
-            self.info[n] = self.ts.to_type_info(other.info[n].raw_type)
+            self.info[n] = self.ts.to_type_info(other.resolve(n).raw_type)
         self.universe = list(other.universe)
         for a, b in edges:
             self.ts.add_subclass_edge(super_class=self.info[a], sub_class=self.info[b])
@@ -329,13 +329,41 @@ class Cluster:
             sys.modules.pop(getattr(self, "depname", "") or "", None)
 
     # --- abstraction -------------------------------------------------------------------------
+    def _norm(self, full_name):
+        """Names of classes outside the universe must not depend on the (per cluster) module names."""
+        if self.modname:
+            if full_name.startswith(self.depname + "."):
+                return "DEP." + full_name[len(self.depname) + 1:]
+            if full_name.startswith(self.modname + "."):
+                return "MOD." + full_name[len(self.modname) + 1:]
+        return full_name
+
+    def _denorm(self, name):
+        if self.modname and name.startswith("DEP."):
+            return self.depname + "." + name[4:]
+        if self.modname and name.startswith("MOD."):
+            return self.modname + "." + name[4:]
+        return name
+
     def name_of(self, ti):
         for n, i in self.info.items():
             if i == ti:
                 return n
-        n = "@" + ti.full_name
+        n = "@" + self._norm(ti.full_name)
         self.info[n] = ti
         return n
+
+    def resolve(self, name):
+        """TypeInfo for a name; '@...' names (classes outside the universe, possibly first seen on another
+        cluster of the same module) are looked up in this cluster's type system.  KeyError if unknown."""
+        if name in self.info:
+            return self.info[name]
+        if name.startswith("@"):
+            ti = self.ts.find_type_info(self._denorm(name[1:]))
+            if ti is not None:
+                self.info[name] = ti
+                return ti
+        raise KeyError(name)
 
     def to_real(self, t):
         from pynguin.analyses.typesystem import ANY, NONE_TYPE, Instance, TupleType, UnionType
@@ -346,7 +374,7 @@ class Cluster:
         if k == "none":
             return NONE_TYPE
         if k == "inst":
-            return Instance(self.info[t[1]], tuple(self.to_real(x) for x in t[2]))
+            return Instance(self.resolve(t[1]), tuple(self.to_real(x) for x in t[2]))
         if k == "tuple":
             return TupleType(tuple(self.to_real(x) for x in t[1]))
         return UnionType(tuple(self.to_real(x) for x in t[1]))
@@ -371,7 +399,7 @@ class Cluster:
         return None
 
     def hg_of(self, name):
-        return self.info[name].num_hardcoded_generic_parameters
+        return self.resolve(name).num_hardcoded_generic_parameters
 
     def wf(self, t):
         k = t[0]
@@ -392,7 +420,7 @@ class Cluster:
         g = self.ts._graph
         keep = set()
         for n in used_names:
-            ti = self.info[n]
+            ti = self.resolve(n)
             keep.add(ti)
             keep |= nx.ancestors(g, ti)
         names = sorted(self.name_of(ti) for ti in keep)
